@@ -35,7 +35,8 @@ def bound(tier):
     return dict(kinds=["positive", "complex", "mixed"], N=[1, 4], pos_batch_size=[1, 4], neg_batch_size=["default", 1, 2, 3], k=[0, 3],
                 lr_scheduler=[[0.1, "none"], [1.0, "StepLR(gamma=0.5)"]] + ([] if q else [[0.1, "StepLR(gamma=0.5)"]]), epochs=[1, 2], starting_epoch="1; 3 (three epochs) for scheduler runs",
                 shuffle="default + every 1-deviation (all N! perms, structured randint menu) for N<=3, default for N=4",
-                bernoulli="two deterministic scripts; all outcomes for nv=nh=1, N=1, k<=2")
+                bernoulli="two deterministic scripts; all outcomes for nv=nh=1, N=1, k<=2",
+                numpy_integer_arguments="epochs / starting_epoch / pos_batch_size / neg_batch_size / k as numpy integers (4 configurations per kind)")
 
 
 def plan(tier, seed):
@@ -61,6 +62,9 @@ def plan(tier, seed):
                                 if sched and ep == 2 and k == 1 and nb in (None, 2):
                                     # continuing a run: the schedule advances once per epoch wherever the epoch numbering starts
                                     cfgs.append(dict(kind=kind, N=N, pb=pb, nb=nb, k=k, lr=lr, sched=sched, epochs=3, e0=3, script=(len(cfgs) % 2)))
+    for kind in ("positive", "complex", "mixed"):
+        for N, pb, nb, k in ((3, 2, 1, 1), (3, 1, 2, 2), (2, 2, 1, 0), (3, 3, None, 1)):
+            cfgs.append(dict(kind=kind, N=N, pb=pb, nb=nb, k=k, lr=0.1, sched=(k == 1), epochs=2 if kind != "mixed" else 1, script=0, npints=True))
     items = [dict(layer="fits", configs=cfgs[j:j + 6]) for j in range(0, len(cfgs), 6)]
     for kind in ("positive", "complex", "mixed"):
         for k in (1, 2):
@@ -166,7 +170,12 @@ def run_fit(cfg, tape, acc, bern="script", st=None, shared=None):
     out = []
     try:
         with Owned(dec):
-            call(st.fit, data, epochs=e0 + ep - 1, starting_epoch=e0, pos_batch_size=pb, neg_batch_size=nb, k=k, lr=lr, optimizer=make_rec(log), callbacks=[cb], **kw)
+            if cfg.get("npints"):
+                # the integer arguments as numpy integers (an element of a sweep array, the result of .sum())
+                call(st.fit, data, epochs=np.int64(e0 + ep - 1), starting_epoch=np.int64(e0), pos_batch_size=np.int64(pb), neg_batch_size=None if nb is None else np.int32(nb),
+                     k=np.int64(k), lr=lr, optimizer=make_rec(log), callbacks=[cb], **kw)
+            else:
+                call(st.fit, data, epochs=e0 + ep - 1, starting_epoch=e0, pos_batch_size=pb, neg_batch_size=nb, k=k, lr=lr, optimizer=make_rec(log), callbacks=[cb], **kw)
     except LibRaised as e:
         return [(f"cd:fit-raised:{e.kind}", dict(tb=e.tb))], 0
     nb_total = math.ceil(N / pb) * ep
@@ -190,6 +199,10 @@ def run_fit(cfg, tape, acc, bern="script", st=None, shared=None):
         ch = chains[t]
         if not (ch["k"] == k and seen[t]["k"] == k and tuple(ch["start"].shape) == tuple(neg.shape) and torch.equal(ch["start"], neg)):
             out.append(("cd:chain-not-k-steps-from-the-negative-batch", dict(step=t, k_used=ch["k"], k=k)))
+            break
+        nbs = nb or pb
+        if not (len(neg) == nbs or (not with_bases and nbs == pb and tuple(neg.shape) == tuple(pos.shape) and torch.equal(neg, pos))):
+            out.append(("cd:negative-phase-not-averaged-over-the-requested-negative-batch-size", dict(step=t, rows=len(neg), requested=nbs)))
             break
         if k == 0 and not torch.equal(ch["end"], ch["start"]):
             out.append(("cd:zero-step-chain-moved-away-from-the-negative-batch", dict(step=t)))
@@ -302,7 +315,7 @@ def replay(case):
             d = dict(detail or {})
             acc.viol(sig, case, observed=d.pop("observed", None), expected=d.pop("expected", None), detail=d)
         return acc
-    cfg = {k: case[k] for k in ("kind", "N", "pb", "nb", "k", "lr", "sched", "epochs", "script", "e0") if k in case}
+    cfg = {k: case[k] for k in ("kind", "N", "pb", "nb", "k", "lr", "sched", "epochs", "script", "e0", "npints") if k in case}
     if "n" in case:
         cfg["n"] = case["n"]
     tp, (viols, steps) = T.replay(lambda t: run_fit(cfg, t, acc, case.get("bern", "script")), case["tape"])
